@@ -11,10 +11,79 @@ import json
 
 import core
 import mboxx
+import world as W
 from props.c01 import report_diffs, _mix
 
 MIX = {"deliver": 14, "poll": 9, "idle": 6, "noop": 6, "store": 12, "expunge": 9, "fetch": 8, "append": 5, "select": 7,
        "move": 3, "copy": 3, "close": 2, "check": 2, "search": 2, "unselect": 2, "restart": 1}
+
+
+def midcommand_deliveries(ctx):
+    """An MH tool is another process: it can deliver at any instant, also after a command has been let through (the folder
+    was resynced for it) and before the command writes .mh_sequences.  The delivery is injected at the entry of the
+    Mailbox method that does the command's work; afterwards the new message must be what the agent delivered: listed in
+    `unseen` (or not) in the file, and shown so to the sessions."""
+    import re
+    from asimap.mbox import Mailbox
+    cases = [("STORE 1:2 +FLAGS (\\Flagged)", "store"), ("STORE 2 FLAGS (kw1)", "store"), ("UID STORE 1 -FLAGS (\\Seen)", "store"),
+             ("FETCH 1:2 BODY[]", "fetch"), ("FETCH 1:3 (FLAGS)", "fetch"), ("COPY 1:2 inbox", "copy"), ("COPY 1 work", "copy"),
+             ("EXPUNGE", "expunge"), ("MOVE 2 work", "copy"), ("MOVE 2 work", "expunge"), ("APPEND", "append")]
+    n = 0
+    for text, meth in cases:
+        for unseen in (True, False):
+            for ndel in (1, 2):
+                w = W.World(seed=ctx.rng.randrange(1 << 30))
+                try:
+                    w.session("S0"); w.session("A"); w.session("B")
+                    w.cmd("S0", "x STATUS inbox (MESSAGES)")
+                    w.cmd("S0", "x CREATE work")
+                    w.deliver("inbox", 3, unseen=True)
+                    w.cmd("A", "a SELECT inbox"); w.cmd("B", "b SELECT inbox")
+                    w.cmd("A", "a STORE 3 +FLAGS (\\Deleted)")
+                    w.drain("A"); w.drain("B")
+                    orig = getattr(Mailbox, meth)
+                    newkeys = []
+
+                    def wrapped(self, *a, _orig=orig, **kw):
+                        if not newkeys and self.name == "inbox":
+                            newkeys.extend(w.deliver("inbox", ndel, unseen=unseen))
+                        return _orig(self, *a, **kw)
+                    setattr(Mailbox, meth, wrapped)
+                    try:
+                        if text == "APPEND":
+                            lit = W.make_msg(900)
+                            w.cmd("A", f"t APPEND inbox {{{len(lit)}}}\r\n" + lit.decode())
+                        else:
+                            w.cmd("A", "t " + text)
+                    finally:
+                        setattr(Mailbox, meth, orig)
+                    if not newkeys:
+                        continue
+                    w.settle(25)
+                    w.cmd("A", "n NOOP"); w.cmd("B", "n NOOP")
+                    raw = mboxx.read_mh_sequences(str(w.root / "inbox" / ".mh_sequences"))
+                    n += 1
+                    ctx.count({"midcommand_delivery": text, "at": meth, "unseen": unseen, "messages": ndel}, nontrivial=True)
+                    for key in newkeys:
+                        in_unseen, in_seen = key in raw.get("unseen", []), key in raw.get("Seen", [])
+                        mb = w.server.active_mailboxes["inbox"]
+                        shown = None
+                        if key in mb.msg_keys:
+                            pos = mb.msg_keys.index(key) + 1
+                            out = b"".join(w.cmd("B", f"f FETCH {pos} (FLAGS)"))
+                            m = re.search(rb"FLAGS \(([^)]*)\)", out)
+                            shown = m.group(1).decode() if m else None
+                        ok = (in_unseen == unseen) and (in_seen != unseen or not in_seen and not unseen) and \
+                            shown is not None and (("\\Seen" in shown.split()) != unseen)
+                        if not ok:
+                            ctx.violation("a message delivered while a command was in progress does not appear with the flags the "
+                                          "agent gave it",
+                                          {"command": text, "delivered_at_entry_of": "Mailbox." + meth, "delivered_unseen": unseen,
+                                           "message_key": key, ".mh_sequences": raw, "flags_shown_to_a_session": shown})
+                            break
+                finally:
+                    w.close()
+    ctx.extra["midcommand_delivery_cases"] = n
 
 
 def run(ctx):
@@ -43,6 +112,21 @@ def run(ctx):
             ctx.violation("MH folder and IMAP view disagree: " + d,
                           {"seed": h.seed, "step": k, "ops_up_to_step": [repr(o) for o in h.ops[:k + 1]],
                            "after": h.snaps[k][1]["boxes"] if h.snaps[k][1] else None})
+    # deliveries in the same second as the server's last look at the folder (it cannot see them until something else
+    # touches the folder): outside the model; the oracles on the real folder and on what sessions are told apply
+    sh = mboxx.generate(ctx, 120 if ctx.thorough else 24, 40, mix=dict(MIX, sdeliver=9, poll=6, restart=0), pack=(4, 4, 5))
+    for h in sh:
+        if h.error:
+            ctx.violation("the implementation raised while running a history", {"seed": h.seed, "ops": [repr(o) for o in h.ops], "error": h.error})
+            continue
+        ctx.count({"unseen_deliveries": True, "sessions": h.nsess, "ops": [repr(o) for o in h.ops[:12]] + ["..."], "seed": h.seed},
+                  nontrivial=any(o[0] == "sdeliver" for o in h.ops))
+        for (k, d) in (mboxx.mh_oracle(h) + mboxx.uid_oracle(h) + mboxx.flag_oracle(h) + mboxx.binding_oracle(h))[:1]:
+            ctx.violation("with deliveries the server has not seen yet, MH folder and IMAP view disagree: " + d,
+                          {"seed": h.seed, "step": k, "ops_up_to_step": [repr(o) for o in h.ops[:k + 1]],
+                           "after": h.snaps[k][1]["boxes"] if h.snaps[k][1] else None})
+    ctx.extra["histories_with_unseen_deliveries"] = len(sh)
+    midcommand_deliveries(ctx)
     ctx.coq.build(["Model/MboxCmp.vo"])
     bad, _ = mboxx.compare(ctx, "c13", hs)
     report_diffs(ctx, "C13", hs, bad, "model (proved) and implementation disagree on what sessions are told about deliveries")
